@@ -55,4 +55,19 @@ CHECKS["C28"] = dict(
     design_ref="DESIGN.md §4 C28",
 )
 
+CHECKS["C25"] = dict(
+    category="exploration",
+    technique="exhaustive history enumeration + Hypothesis RuleBasedStateMachine against an independent reference model of the template cache",
+    text="All histories of get/select/put/delete/loader-swap operations ending in a fetch (2 names x 2 versions up to length 4, 3 names up to length 3-4; thorough +1-2 steps) x cache sizes {0,1,2,-1} x auto_reload on/off x DictLoader / FunctionLoader with and without up-to-date callback / FileSystemLoader with counter-forced mtimes, plus 100-step state-machine runs, against a reference LRU keyed by (loader, name) with per-loader staleness rules. Observed: rendered text or TemplateNotFound, number of compilations (Environment._generate override), cached key set, size bound. 420k histories quick, 9.9M thorough; 11/11 mutants killed.",
+    note="The model is nondeterministic only after a failed reload of a deleted template (docs leave the cache state open); compilation counted via _generate; no bytecode cache; mtimes change on every rewrite.",
+    design_ref="DESIGN.md §4 C25",
+)
+CHECKS["C26"] = dict(
+    category="exploration",
+    technique="exhaustive sequential histories + stateful Hypothesis machine against an OrderedDict model; controlled-schedule concurrency testing (settrace baton scheduler, Hypothesis-drawn pre-emption points) with a brute-force linearizability oracle",
+    text="Sequential: every history of <=4 operations (21-operation alphabet incl. copy and pickle, 3 keys, capacities 1-3; thorough <=5 plus pruned 6/7) and 200-step state-machine runs agree with an OrderedDict LRU model step by step. Concurrent: 2-3 threads x 1-3 operations on a pre-populated cache run under a harness-owned scheduler that pre-empts at any line (opcode in thorough) inside LRUCache methods according to a Hypothesis-drawn, shrinkable schedule (<=3/5 pre-emptions), with _wlock replaced by a scheduler-aware lock; each execution must be linearizable w.r.t. the model respecting real-time order, exception-free and deadlock-free. 64k schedules quick, 1.3M thorough. Removing any 'with self._wlock' is found within a few hundred schedules; found F51 (unlocked __contains__).",
+    note="Python line/opcode granularity under the GIL; C-level races and free-threading not covered; the lock is the instance attribute _wlock; capacity >= 1.",
+    design_ref="DESIGN.md §4 C26",
+)
+
 NOT_YET = "check not built yet in this session (see DESIGN.md §8 for the order of work)"
